@@ -8,7 +8,7 @@ junk2 = [bytearray(64 + (i % 7)) for i in range(int(os.environ.get("VERIF_JUNK",
 def main():
     spec = json.load(open(sys.argv[1]))
     from harness import env, gen, programs
-    ns = env.load(with_utils=spec["kind"] == "split")
+    ns = env.load(with_utils=spec["kind"] in ("split", "onehot-strings"))
     import numpy as np, random
     sg, nn = ns.sg, ns.nn
     tap = {"constructions": [], "draw_calls": {}}
@@ -108,6 +108,38 @@ def main():
             put(persist["model"](persist["x"]).data)
             put(persist["drop"](sg.ones(4, 9)).data)
             put(sg.rand(3).data)
+        elif kind == "train-conv":
+            # windows that are disjoint but do not tile the input: every cell of the input gradient must still be defined
+            model = nn.Sequential(nn.Conv2d(1, 2, 2), nn.MaxPool2d(2), nn.Flatten(), nn.Linear(2 * 3 * 3, 2))
+            opt = ns.optim.SGD(model.parameters(), lr=0.05, momentum=0.5)
+            X = sg.randn(4, 1, 8, 8); X.requires_grad = True
+            t = sg.randint(0, 2, (4,))
+            junk_ = [np.full(64, float(i)) for i in range(spec.get("junk_arrays", 50))]; del junk_
+            for step in range(3):
+                out = model(X)
+                loss = nn.CrossEntropyLoss()(out, t) + sg.avg_pool2d(X, 3, 2, 0, 2).sum() * 1e-3 + sg.max_pool1d(X.reshape((4, 8, 8)), 2, 3).sum() * 1e-3
+                opt.zero_grad(); loss.backward(); opt.step()
+                put(loss.data); put(X.grad.data)
+            for p in model.parameters():
+                put(p.data)
+        elif kind == "apply-init":
+            spacer = [object() for _ in range(int(os.environ.get("VERIF_JUNK", "0")) // 100 + 3)]
+            layers = []
+            for i in range(6):
+                layers.append(nn.Linear(3 + i, 4))
+                spacer.append([bytearray(48 + 16 * i) for _ in range(1 + (int(os.environ.get("VERIF_JUNK", "0")) // 1000) % 7)])
+            model = nn.Sequential(*layers)
+
+            def init_fn(m):
+                if isinstance(m, nn.Linear):
+                    ns.init.xavier_uniform_(m.weight); ns.init.normal_(m.bias)
+            model.apply(init_fn)
+            for p in model.parameters():
+                put(p.data)
+        elif kind == "onehot-strings":
+            labels = ["cat", "dog", "emu", "cat", "asp", "dog", "yak", "emu"]
+            put(ns.data.one_hot_encode(labels))
+            put(ns.data.one_hot_encode(np.array(labels)))
         elif kind == "split":
             X = [[i, i + 0.5] for i in range(23)]; y = list(range(23))
             tr, te, va = ns.data.split_dataset(X, y, test_split=0.3, val_split=0.2, shuffle=True)
